@@ -27,7 +27,7 @@ def decTape (s : String) : List OracleAns :=
   if s.isEmpty then [] else (s.splitOn "\x1d").filterMap decAns
 
 /-- one in-place operation; returns extra output (e.g. violations) -/
-def runOp (noneGood : Bool) (op : String) : DocM String :=
+def runOp1 (noneGood : Bool) (op : String) : DocM String :=
   match words op with
   | ["remove_nonsvg_content"] => do opRemoveNonSvg noneGood; pure ""
   | ["remove_processing_instructions"] => do opRemovePIs; pure ""
@@ -52,6 +52,11 @@ def runOp (noneGood : Bool) (op : String) : DocM String :=
   | ["tostring"] => do let _ ← toTree; pure ""
   | ["shapes"] => do let _ ← elements; pure ""
   | _ => DocM.fail .notImplementedError
+
+/-- `copy:<op>` is the copying form: `_clone()` and the in-place operation on the copy, which becomes the current object -/
+def runOp (noneGood : Bool) (op : String) : DocM String :=
+  if op.startsWith "copy:" then do clone; runOp1 noneGood (op.drop 5).toString
+  else runOp1 noneGood op
 
 def runOps (noneGood : Bool) (ops : List String) : DocM (List String) := ops.mapM (runOp noneGood)
 
